@@ -364,6 +364,8 @@ theorem doRemove_post {s : WS} {o : Nat} {e : SEnt} (he : s.alive o = some e) {m
     unfold compVal
     dsimp only
     apply lookupC_rebuild_kept info hin hd
+    split
+    · rfl
     rw [List.find?_filter]
     apply find?_congr'
     intro p _
